@@ -139,6 +139,51 @@ type ssmEnv struct {
 	noSnapOnClose bool
 	// broken is set once the table no longer matches: the history stops there
 	broken bool
+	// parked read transactions on an external read-only connection (invisible to the model):
+	// a reader at the end of the WAL lets a checkpoint move every page but not truncate the WAL
+	ro      *dbsql.DB
+	readers []*dbsql.Conn
+}
+
+// park starts a read transaction at the current end of the WAL on an external connection.
+func (e *ssmEnv) park() {
+	if e.ro == nil {
+		ro, err := dbsql.Open("rqlite-sqlite3", sql.MakeDSN(e.s.dbPath, sql.ModeReadOnly, false, true))
+		if err != nil {
+			e.t.Fatal(err)
+		}
+		e.ro = ro
+	}
+	ctx := context.Background()
+	c, err := e.ro.Conn(ctx)
+	if err != nil {
+		e.t.Fatal(err)
+	}
+	if _, err := c.ExecContext(ctx, "BEGIN"); err != nil {
+		e.t.Fatal(err)
+	}
+	var n int
+	if err := c.QueryRowContext(ctx, "SELECT count(*) FROM kv").Scan(&n); err != nil {
+		e.t.Fatal(err)
+	}
+	e.readers = append(e.readers, c)
+	e.hist = append(e.hist, "reader-parked-at-wal-end")
+}
+
+// unpark ends the oldest `n` parked readers (all of them for n < 0).
+func (e *ssmEnv) unpark(n int) {
+	for len(e.readers) > 0 && n != 0 {
+		c := e.readers[0]
+		e.readers = e.readers[1:]
+		c.ExecContext(context.Background(), "ROLLBACK")
+		c.Close()
+		n--
+		e.hist = append(e.hist, "reader-released")
+	}
+	if len(e.readers) == 0 && e.ro != nil {
+		e.ro.Close()
+		e.ro = nil
+	}
 }
 
 func ssmTempRoot() string {
@@ -197,6 +242,7 @@ func (e *ssmEnv) waitReady() {
 }
 
 func (e *ssmEnv) cleanup() {
+	e.unpark(-1)
 	if e.s != nil && e.s.open.Is() {
 		e.s.Close(true)
 	}
@@ -446,6 +492,7 @@ func (e *ssmEnv) snapshot(trailing int) bool {
 }
 
 func (e *ssmEnv) closeStore() {
+	e.unpark(-1)
 	if err := e.s.Close(true); err != nil {
 		e.t.Fatalf("close: %v", err)
 	}
